@@ -18,7 +18,7 @@ EXTENDS Integers, Sequences, FiniteSets, TLC, Json
 CONSTANTS Depth, Pre, Export
 VARIABLES a, b, alive, fresh, hist
 Sides == {"A", "B"}
-Edits == {"RenameNode", "MoveVerts", "SetTriangles", "DeleteShape", "AddNode", "DeleteBlock", "SetTexture"}
+Edits == {"RenameNode", "MoveVerts", "SetTriangles", "DeleteShape", "AddNode", "DeleteBlock", "SetTexture", "SelectLod"}
 Other(x) == IF x = "A" THEN "B" ELSE "A"
 Init == a = 1 /\ b = 0 /\ alive = {"A"} /\ fresh = 2 /\ hist = <<>>
 Rec(act) == hist' = Append(hist, act)
